@@ -86,6 +86,9 @@ def discharge(ob: Obligation, use_cvc5=True, z3_timeout=None, cvc5_timeout=None)
     else:
         ob.status = "unknown"
         ob.detail = "z3: " + s.reason_unknown()
+        if not ob.expect_sat and _small_universe_refutation(ob):
+            ob.time_s = time.time() - t0
+            return ob
         if use_cvc5:
             verdict, out = _run_cvc5(ob.smt2(), cvc5_timeout or CVC5_TIMEOUT_MS)
             want_good = "sat" if ob.expect_sat else "unsat"
@@ -99,6 +102,38 @@ def discharge(ob: Obligation, use_cvc5=True, z3_timeout=None, cvc5_timeout=None)
                 ob.detail += " | cvc5: unknown"
     ob.time_s = time.time() - t0
     return ob
+
+
+def _uninterpreted_sorts():
+    from .types import _sort_cache
+    return [v for k, v in _sort_cache.items() if isinstance(v, z3.SortRef) and v.kind() == z3.Z3_UNINTERPRETED_SORT]
+
+
+def _small_universe_refutation(ob: Obligation, sizes=(2, 3), timeout_ms=4000) -> bool:
+    """A quantified obligation that is *not* valid often leaves z3 without a model ("unknown").  Restricting every
+    uninterpreted sort to a small finite universe makes the quantifiers finite; a model found there is a model
+    of the original query too (extra axioms only remove models), i.e. a genuine counterexample."""
+    sorts = _uninterpreted_sorts()
+    if not sorts:
+        return False
+    for k in sizes:
+        s = z3.Solver()
+        s.set("timeout", timeout_ms)
+        for c in ob.pc:
+            s.add(c)
+        s.add(z3.Not(ob.goal))
+        for srt in sorts:
+            elems = [z3.Const(f"u{k}_{srt.name()}_{i}", srt) for i in range(k)]
+            x = z3.Const(f"ux_{srt.name()}", srt)
+            s.add(z3.ForAll([x], z3.Or([x == e for e in elems])))
+        if s.check() == z3.sat:
+            ob.status = "failed"
+            ob.backend = f"z3 (universe of {k} per id sort)"
+            ob.model = s.model()
+            ob.model_text = _model_text(ob.model)
+            ob.detail += f" | counter-model found with {k} elements per uninterpreted sort"
+            return True
+    return False
 
 
 def _model_text(m, limit=4000) -> str:
